@@ -147,28 +147,34 @@ def run(ctx, crate):
             continue
         v = ret[3][fields.index(cat)]
         alts = list(v[2]) if v[0] == "phi" else [v]
-        with_toml = [a for a in alts if T.calls_in(a, "Iterator::collect")]
+        # with --toml: a list created empty and filled by one unconditional push per element of the configuration's list, the pushed value being
+        # strfn(element)  (`.iter().map(|f| strfn(f)).collect()` is normalised to this loop by analysis/prep.py)
+        with_toml = [a for a in alts if a[0] == "call" and a[1].endswith("Vec::<T>::new")]
         without = [a for a in alts if T.is_call(a, allfn)]
         ok1 = False
         why = ""
         if len(with_toml) == 1 and cfg_t is not None:
-            c = with_toml[0]
-            m = c[2][0] if c[0] == "call" and c[2] else None
-            if m is not None and T.is_call(m, "Iterator::map") and len(m[2]) == 2:
-                src, clo = m[2]
-                src_ok = T.field_of(src) is not None and T.contains(src, cfg_t) and src[2][2] == cat
-                clo_ok = False
-                if clo[0] == "agg" and clo[1] == "closure":
-                    cb = crate.bodies.get(clo[2])
-                    if cb is not None:
-                        rv = cb.val_local(0)
-                        cs = [s for s in S.call_sites(cb)]
-                        clo_ok = len([s for s in cs if s.path.endswith("::" + strfn) and s.args and s.args[0] == ("param", 2)]) == 1 \
-                            and T.is_call(rv, strfn)
-                ok1 = src_ok and clo_ok
-                why = "source=%s closure_calls_%s=%s" % (show(src)[-40:], strfn, clo_ok)
+            lst = with_toml[0]
+            pushes = [s_ for s_ in sites if s_.path == "std::vec::Vec::<T, A>::push" and s_.args and s_.args[0] == lst]
+            others = [s_ for s_ in sites if s_.args and s_.args[0] == lst and s_ not in pushes and not s_.path.endswith(("::new", "::len", "::iter", "::clone"))]
+            if len(pushes) == 1 and not others:
+                p = pushes[0]
+                val = p.args[1]
+                called = T.is_call(val, strfn) and len(val[2]) == 1
+                el = val[2][0] if called else None
+                src = el[1] if el is not None and el[0] == "elem" else None
+                src_ok = src is not None and T.contains(src, cfg_t) and T.field_of(src) is not None and src[2][2] == cat
+                import order as O
+                lps = [lp for lp in O.loops_of_body(on) if p.bb in lp.blocks]
+                loop_ok = len(lps) == 1 and not lps[0].exits()[1] and lps[0].iterable == src
+                created = O.creation_block(on, lst)
+                guard_ok = created is not None and S.block_guard(on, p.bb) == S.block_guard(on, created)
+                ok1 = bool(called and src_ok and loop_ok and guard_ok)
+                why = "pushed=%s source=%s whole_list_unconditionally=%s" % (show(val)[:60], show(src)[-40:] if src is not None else None, bool(loop_ok and guard_ok))
+            else:
+                why = "pushes=%d other uses=%d" % (len(pushes), len(others))
         obs.append(Ob("R14.select", on.path, "with --toml: %s = the toml list mapped through %s" % (cat, strfn), ok1,
-                      expected="toml.%s.iter().map(%s).collect()" % (cat, strfn), found=why or [show(a)[:80] for a in alts]))
+                      expected="for every name of toml.%s, in order: push(%s(name))" % (cat, strfn), found=why or [show(a)[:80] for a in alts]))
         obs.append(Ob("R14.select", on.path, "without --toml: %s = %s()" % (cat, allfn), len(without) == 1 and len(alts) == 2,
                       found=[show(a)[:60] for a in alts]))
     # guards: the toml alternative is selected by `--toml given`
